@@ -42,10 +42,54 @@ class Body:
         return bool(self.blocks[bb].get("cleanup"))
 
     def succs(self, bb):
-        """Normal (non-unwind) successors."""
+        """Normal (non-unwind) successors, minus edges that cannot execute (see _infeasible)."""
         if self._succ is None:
             self._succ = [self._compute_succ(i) for i in range(self.n)]
+            for (a, b) in self._infeasible():
+                if b in self._succ[a] and len(self._succ[a]) > 1:
+                    self._succ[a] = [x for x in self._succ[a] if x != b]
         return self._succ[bb]
+
+    def _infeasible(self):
+        """`Err(e)?` / `None?`: Try::branch applied to a value built as Err/None in the same block chain can only take
+        the Break edge; the Continue edge of the following switch is dead."""
+        dead = []
+        for i in range(self.n):
+            t = self.blocks[i]["t"]
+            if t["k"] != "call" or not (t["fn"].endswith("Try>::branch") or t["fn"].endswith("::branch")):
+                continue
+            if not t["args"] or t.get("t") is None:
+                continue
+            p = op_place(t["args"][0])
+            if p is None or place_proj(p):
+                continue
+            src = place_local(p)
+            defs = []
+            for j in range(self.n):
+                for st in self.blocks[j]["s"]:
+                    if st["d"] == src:
+                        defs.append(st["rv"])
+                tt = self.blocks[j]["t"]
+                if tt["k"] == "call" and tt["dest"] == src:
+                    defs.append(None)
+            if len(defs) != 1 or defs[0] is None or defs[0]["k"] != "agg" or defs[0].get("variant") not in ("Err", "None", "Break"):
+                continue
+            # the switch on the ControlFlow discriminant of the branch result
+            nb = t["t"]
+            hops = 0
+            while hops < 4:
+                term = self.blocks[nb]["t"]
+                if term["k"] == "switch":
+                    for v, tgt in term["targets"]:
+                        if int(v) == 0:     # ControlFlow::Continue
+                            dead.append((nb, tgt))
+                    break
+                if term["k"] == "goto":
+                    nb = term["t"]
+                    hops += 1
+                    continue
+                break
+        return dead
 
     def _compute_succ(self, bb):
         t = self.term(bb)
